@@ -136,7 +136,7 @@ def build_case(spec):
         return ProcessSequence(ps)
     params = {}
     for p in procs: params.update(p.get('params', {}))
-    return dict(history=spec.get('history', []), fixed_proto=spec.get('fixed_proto', False), preattr=spec.get('preattr'), procs_json=procs, build=build, dyn=spec['dyn'], nodes=spec['nodes'], edges=[tuple(e) for e in spec['edges']], maxT=spec['maxT'],
+    return dict(strlabels=spec.get('strlabels', False), history=spec.get('history', []), fixed_proto=spec.get('fixed_proto', False), preattr=spec.get('preattr'), procs_json=procs, build=build, dyn=spec['dyn'], nodes=spec['nodes'], edges=[tuple(e) for e in spec['edges']], maxT=spec['maxT'],
                 seed=spec['seed'], params=params, specials=spec.get('specials', ()), pspecial=spec.get('pspecial', 0.0),
                 oracles=[ORACLES[o] for o in spec.get('oracles', [])], finals=[FINALS[o] for o in spec.get('oracles', []) if o in FINALS])
 
@@ -220,7 +220,7 @@ def gen_shipped(rnd, classes=None, dyn=None, oracles=('clock', 'member', 'loci')
     ps = sorted({v for k, v in params.items() if isinstance(v, float) and 0 < v < 1})
     return dict(procs=[dict(cls=cls, name=None, params=params)], seq='bare', dyn=dyn or rnd.choice(['sto', 'syn']), nodes=nodes,
                 edges=edges, maxT=maxT or rnd.choice([3.0, 6.0, 12.0]), seed=rnd.random(), specials=ps, pspecial=0.15,
-                oracles=list(oracles), preattr=(rnd.randrange(1 << 30) if rnd.random() < 0.25 else None))
+                oracles=list(oracles), preattr=(rnd.randrange(1 << 30) if rnd.random() < 0.25 else None), strlabels=rnd.random() < 0.2)
 
 
 def gen_compfix(rnd, dyn=None):
@@ -243,7 +243,7 @@ def gen_forced(rnd, dyn=None):
     nodes = base['nodes']
     # (Opinion: only towards SPREADER — moving a spreader back exercises the L-in-R locus of known finding K1, which is C01's business)
     p['force'] = [[rnd.choice(nodes), rnd.choice([inf, inf, sus]) if p['cls'] != 'Opinion' else inf] for _ in range(rnd.randint(1, 4))]
-    base['preattr'] = None
+    base['preattr'] = None; base['strlabels'] = False      # (the forced seeds name nodes by number)
     return base
 
 
